@@ -64,6 +64,175 @@ pub mod unit_stats {
         }
     }
 
+    // ---- C11 corollaries of the formula (real arithmetic) ------------------------------------------------
+    pub proof fn lemma_rssd_nonneg(s: Seq<Fl>, m: real, k: int)
+        ensures rssd(s, m, k) >= 0real
+        decreases k
+    {
+        if k > 0 {
+            lemma_rssd_nonneg(s, m, k - 1);
+            let d = rv(s[k - 1]) - m;
+            assert(d * d >= 0real) by(nonlinear_arith);
+        }
+    }
+    /// sqrt is monotone on the non-negative reals (from sqrt(x)^2 = x, sqrt(x) >= 0)
+    pub proof fn lemma_sqrt_mono(a: real, b: real)
+        requires 0real <= a <= b
+        ensures sqrt_r(a) <= sqrt_r(b)
+    {
+        broadcast use ax_sqrt;
+        let (x, y) = (sqrt_r(a), sqrt_r(b));
+        if x > y { assert(x * x > y * y) by(nonlinear_arith) requires x > y, y >= 0real; }
+    }
+    /// split R-hat is never below sqrt((n-1)/n): var+/W = (n-1)/n + (B/n)/W with B >= 0
+    pub proof fn lemma_rhat_lower_bound(h: Seq<Seq<Fl>>, n: int)
+        requires n >= 1, h.len() >= 2, within_w(h, n, 0) > 0real
+        ensures var_plus(h, n, 0) / within_w(h, n, 0) >= (n - 1) as real / (n as real),
+            sqrt_r(var_plus(h, n, 0) / within_w(h, n, 0)) >= sqrt_r((n - 1) as real / (n as real))      // [C11.rhat_never_below_sqrt_n_minus_1_over_n]
+    {
+        let w = within_w(h, n, 0);
+        let b = between_over_n(h);
+        lemma_rssd_nonneg(means(h), rmean(means(h)), h.len() as int);
+        assert(b >= 0real) by(nonlinear_arith) requires b == rssd(means(h), rmean(means(h)), h.len() as int) / ((h.len() - 1) as real), rssd(means(h), rmean(means(h)), h.len() as int) >= 0real, h.len() >= 2;
+        let c = (n - 1) as real / (n as real);
+        assert(c >= 0real) by(nonlinear_arith) requires c == (n - 1) as real / (n as real), n >= 1;
+        assert((c * w + b) / w >= c) by(nonlinear_arith) requires w > 0real, b >= 0real;
+        lemma_sqrt_mono(c, var_plus(h, n, 0) / w);
+    }
+    /// the R-hat of parameter q depends on the draws of parameter q only
+    pub proof fn lemma_rhat_ignores_other_parameters(x: Seq<Seq<Seq<Fl>>>, y: Seq<Seq<Seq<Fl>>>, n: int, q: int)
+        requires col(x, q) =~~= col(y, q)
+        ensures wv(x, n, q) == wv(y, n, q)      // [C11.rhat_unchanged_by_the_values_of_other_parameters]
+    {
+    }
+    /// sums under an affine map t_i = a s_i + b
+    pub proof fn lemma_rsum_affine(s: Seq<Fl>, t: Seq<Fl>, a: real, b: real, k: int)
+        requires k >= 0, forall |i: int| 0 <= i < k ==> rv(#[trigger] t[i]) == a * rv(s[i]) + b
+        ensures rsum(t, k) == a * rsum(s, k) + b * (k as real)
+        decreases k
+    {
+        if k > 0 {
+            lemma_rsum_affine(s, t, a, b, k - 1);
+            assert(rv(t[k - 1]) == a * rv(s[k - 1]) + b);
+            assert(a * rsum(s, k - 1) + b * ((k - 1) as real) + (a * rv(s[k - 1]) + b) == a * (rsum(s, k - 1) + rv(s[k - 1])) + b * (k as real)) by(nonlinear_arith);
+        } else {
+            assert(a * 0real + b * 0real == 0real) by(nonlinear_arith);
+        }
+    }
+    pub proof fn lemma_rssd_affine(s: Seq<Fl>, t: Seq<Fl>, a: real, b: real, m: real, k: int)
+        requires k >= 0, forall |i: int| 0 <= i < k ==> rv(#[trigger] t[i]) == a * rv(s[i]) + b
+        ensures rssd(t, a * m + b, k) == a * a * rssd(s, m, k)
+        decreases k
+    {
+        if k > 0 {
+            lemma_rssd_affine(s, t, a, b, m, k - 1);
+            let (x, y) = (rv(s[k - 1]), rv(t[k - 1]));
+            assert(y == a * x + b);
+            assert((y - (a * m + b)) * (y - (a * m + b)) == a * a * ((x - m) * (x - m))) by(nonlinear_arith) requires y == a * x + b;
+            assert(a * a * rssd(s, m, k - 1) + a * a * ((x - m) * (x - m)) == a * a * (rssd(s, m, k - 1) + (x - m) * (x - m))) by(nonlinear_arith);
+        } else {
+            assert(a * a * 0real == 0real) by(nonlinear_arith);
+        }
+    }
+    /// g is the image of h under x -> a x + b (every half-chain has n draws)
+    pub open spec fn affine_image(h: Seq<Seq<Fl>>, g: Seq<Seq<Fl>>, n: int, a: real, b: real) -> bool {
+        &&& g.len() == h.len()
+        &&& forall |m: int| 0 <= m < h.len() ==> (#[trigger] h[m]).len() == n && g[m].len() == n
+        &&& forall |m: int, t: int| 0 <= m < h.len() && 0 <= t < n ==> rv(#[trigger] g[m][t]) == a * rv(h[m][t]) + b
+    }
+    /// W and var+ scale by a^2 under x -> a x + b, so split R-hat = sqrt(var+/W) is unchanged (a != 0)
+    pub proof fn lemma_rhat_affine_invariant(h: Seq<Seq<Fl>>, g: Seq<Seq<Fl>>, n: int, a: real, b: real)
+        requires n >= 1, h.len() >= 2, affine_image(h, g, n, a, b), a != 0real, within_w(h, n, 0) != 0real
+        ensures within_w(g, n, 0) == a * a * within_w(h, n, 0), var_plus(g, n, 0) == a * a * var_plus(h, n, 0),
+            var_plus(g, n, 0) / within_w(g, n, 0) == var_plus(h, n, 0) / within_w(h, n, 0)      // [C11.rhat_unchanged_by_affine_rescaling]
+    {
+        broadcast use ax_val_mk;
+        let mm = h.len() as int;
+        let nr = n as real;
+        // per half-chain: mean and variance
+        assert forall |m: int| 0 <= m < mm implies rmean(#[trigger] g[m]) == a * rmean(h[m]) + b
+            && rssd(g[m], rmean(g[m]), n) == a * a * rssd(h[m], rmean(h[m]), n) by {
+            lemma_rsum_affine(h[m], g[m], a, b, n);
+            let sh = rsum(h[m], n);
+            assert((a * sh + b * nr) / nr == a * (sh / nr) + b) by(nonlinear_arith) requires nr >= 1real;
+            lemma_rssd_affine(h[m], g[m], a, b, rmean(h[m]), n);
+        }
+        // W
+        let (vh, vg) = (variances(h, n, 0), variances(g, n, 0));
+        assert forall |m: int| 0 <= m < mm implies rv(#[trigger] vg[m]) == (a * a) * rv(vh[m]) + 0real by {
+            assert(rmean(g[m]) == a * rmean(h[m]) + b);
+            let q = rssd(h[m], rmean(h[m]), n);
+            assert((a * a * q) / nr == (a * a) * (q / nr)) by(nonlinear_arith) requires nr >= 1real;
+        }
+        lemma_rsum_affine(vh, vg, a * a, 0real, mm);
+        let mr = mm as real;
+        assert(((a * a) * rsum(vh, mm) + 0real * mr) / mr == a * a * (rsum(vh, mm) / mr)) by(nonlinear_arith) requires mr >= 2real;
+        assert(within_w(g, n, 0) == a * a * within_w(h, n, 0));
+        // B/n
+        let (uh, ug) = (means(h), means(g));
+        assert forall |m: int| 0 <= m < mm implies rv(#[trigger] ug[m]) == a * rv(uh[m]) + b by { assert(rmean(g[m]) == a * rmean(h[m]) + b); }
+        lemma_rsum_affine(uh, ug, a, b, mm);
+        let su = rsum(uh, mm);
+        assert((a * su + b * mr) / mr == a * (su / mr) + b) by(nonlinear_arith) requires mr >= 2real;
+        lemma_rssd_affine(uh, ug, a, b, rmean(uh), mm);
+        let bh = rssd(uh, rmean(uh), mm);
+        let d = (mm - 1) as real;
+        assert((a * a * bh) / d == a * a * (bh / d)) by(nonlinear_arith) requires d >= 1real;
+        assert(between_over_n(g) == a * a * between_over_n(h));
+        // var+ and the ratio
+        let c = (n - 1) as real / nr;
+        let (w, bo) = (within_w(h, n, 0), between_over_n(h));
+        assert(c * (a * a * w) + a * a * bo == a * a * (c * w + bo)) by(nonlinear_arith);
+        let vp = var_plus(h, n, 0);
+        assert(a * a != 0real) by(nonlinear_arith) requires a != 0real;
+        assert((a * a * vp) / (a * a * w) == vp / w) by(nonlinear_arith) requires a * a != 0real, w != 0real;
+    }
+
+    /// t is s with the entries at positions i < j exchanged (values compared as reals)
+    pub open spec fn swapped(s: Seq<Fl>, t: Seq<Fl>, i: int, j: int) -> bool {
+        &&& 0 <= i < j < s.len() && t.len() == s.len()
+        &&& rv(t[i]) == rv(s[j]) && rv(t[j]) == rv(s[i])
+        &&& forall |k: int| 0 <= k < s.len() && k != i && k != j ==> rv(#[trigger] t[k]) == rv(s[k])
+    }
+    pub proof fn lemma_sums_swap(s: Seq<Fl>, t: Seq<Fl>, i: int, j: int, m: real, k: int)
+        requires swapped(s, t, i, j), 0 <= k <= s.len()
+        ensures
+            k <= i ==> rsum(t, k) == rsum(s, k) && rssd(t, m, k) == rssd(s, m, k),
+            i < k <= j ==> rsum(t, k) == rsum(s, k) - rv(s[i]) + rv(s[j])
+                && rssd(t, m, k) == rssd(s, m, k) - (rv(s[i]) - m) * (rv(s[i]) - m) + (rv(s[j]) - m) * (rv(s[j]) - m),
+            k > j ==> rsum(t, k) == rsum(s, k) && rssd(t, m, k) == rssd(s, m, k),
+        decreases k
+    {
+        if k > 0 {
+            lemma_sums_swap(s, t, i, j, m, k - 1);
+            if k - 1 != i && k - 1 != j { assert(rv(t[k - 1]) == rv(s[k - 1])); }
+        }
+    }
+    /// g is h with the half-chains i < j exchanged
+    pub open spec fn chains_swapped(h: Seq<Seq<Fl>>, g: Seq<Seq<Fl>>, i: int, j: int) -> bool {
+        &&& 0 <= i < j < h.len() && g.len() == h.len() && g[i] == h[j] && g[j] == h[i]
+        &&& forall |k: int| 0 <= k < h.len() && k != i && k != j ==> (#[trigger] g[k]) == h[k]
+    }
+    /// exchanging two chains changes neither W nor var+ (transpositions generate every permutation of the chains)
+    pub proof fn lemma_rhat_chain_swap_invariant(h: Seq<Seq<Fl>>, g: Seq<Seq<Fl>>, n: int, i: int, j: int)
+        requires chains_swapped(h, g, i, j)
+        ensures within_w(g, n, 0) == within_w(h, n, 0), var_plus(g, n, 0) == var_plus(h, n, 0)      // [C11.rhat_unchanged_by_permuting_chains]
+    {
+        broadcast use ax_val_mk;
+        let mm = h.len() as int;
+        let (vh, vg) = (variances(h, n, 0), variances(g, n, 0));
+        assert(swapped(vh, vg, i, j)) by {
+            assert forall |k: int| 0 <= k < mm && k != i && k != j implies rv(#[trigger] vg[k]) == rv(vh[k]) by { assert(g[k] == h[k]); }
+        }
+        lemma_sums_swap(vh, vg, i, j, 0real, mm);
+        let (uh, ug) = (means(h), means(g));
+        assert(swapped(uh, ug, i, j)) by {
+            assert forall |k: int| 0 <= k < mm && k != i && k != j implies rv(#[trigger] ug[k]) == rv(uh[k]) by { assert(g[k] == h[k]); }
+        }
+        lemma_sums_swap(uh, ug, i, j, rmean(uh), mm);
+        assert(rmean(ug) == rmean(uh));
+    }
+
     fn splitcat(sample: ArrayView3<Fl>) -> (r: Array3<Fl>)
         requires 2 <= dim3(sample).1, dim3(sample).1 / 2 <= i32::MAX
         ensures
